@@ -1147,8 +1147,13 @@ class Fxp():
         return val
 
     def _round(self, val, method='floor'):
-        if isinstance(val, int) or np.issubdtype(np.array(val).dtype, np.integer) or np.issubdtype(np.array(val).dtype, np.object_):
+        if isinstance(val, int) or np.issubdtype(np.array(val).dtype, np.integer):
             rval = val
+        elif np.issubdtype(np.array(val).dtype, np.object_):
+            # python numbers (extended precision): integers (and infinities, clipped later) are kept, floats are rounded one by one
+            rval = np.array(val)
+            rval = np.array([v if isinstance(v, (int, np.integer)) or not np.isfinite(v) else int(self._round(float(v), method))
+                             for v in rval.ravel().tolist()], dtype=object).reshape(rval.shape)
         elif method == 'around':
             rval = np.around(val)
         elif method == 'floor':
